@@ -64,7 +64,9 @@ CHECKS.update({
              "<>[]HappyEnd under fairness. TLC behaviours are replayed as scripts on the real actors (real compile, real mpc), "
              "seeded random gate schedules add runs; every log must be a behaviour of ServerCore (all observable fields compared "
              "after every step) and is judged by Mon_Server: schedule Ok, exactly one result equal to the clear-text value, "
-             "all stopped, permits back.",
+             "all stopped, permits back. The interleaving of the MPC-message calls is exercised by slow-link scenarios (the MPC "
+             "messages of one directed link are delivered as late as possible), on a small circuit and on a circuit whose garbled "
+             "gates travel in the maximal number of chunks (the per-peer queues of the state machine hold exactly that much).",
         note=SERVER_NOTE, technique=SERVER_TECH),
     "C14": dict(
         category="model_checking", design_ref="DESIGN.md 4 C14",
@@ -72,7 +74,8 @@ CHECKS.update({
              "out-of-range sender or before scheduling) are an action of ServerCore enabled at every point; TLC checks NoPanic, "
              "StraysRejected and that the run still ends like a fault-free run. On the real code each stray kind is injected after "
              "every k-th step of a base run on every actor (sampled in quick), plus TLC behaviours and random runs; Mon_Server "
-             "requires an error answer, no panicked actor task and the undisturbed outcome.",
+             "requires an error answer, no panicked actor task and the undisturbed outcome. A run request reaching the leader inside "
+             "its schedule step (RunEarly) is valid by the time it is handled: it may be accepted, the outcome must not change.",
         note=SERVER_NOTE, technique=SERVER_TECH),
     "C15": dict(
         category="model_checking", design_ref="DESIGN.md 4 C15",
@@ -88,7 +91,8 @@ CHECKS.update({
              "leader: TLC explores all interleavings (both arrival orders of validate vs schedule) with invariants: no MPC "
              "message, no Ok result, schedule of the offending follower and of the leader end with an error. The same scenarios "
              "run on the real actors (TLC behaviours + random schedules) and are judged by Mon_Server (MPC messages are counted "
-             "at the in-process client).",
+             "at the in-process client). Program mismatches: different tokens, and the same characters with one line break moved "
+             "(a line comment swallowing the rest of the expression: a different program).",
         note=SERVER_NOTE, technique=SERVER_TECH),
     "C17": dict(
         category="model_checking", design_ref="DESIGN.md 4 C17",
@@ -96,7 +100,10 @@ CHECKS.update({
              "validate/run/consts call, cancels are mixed in. TLC checks exact permit accounting, the concurrency bound, that all "
              "permits are back once all policies have ended, and that a failed call ends the policy at the caller (with an error "
              "notification). Real runs with injected failures (1..3 computations, concurrency 1..2, mixed leaders) are validated "
-             "against the spec and judged by Mon_Server using Semaphore::available_permits after every step.",
+             "against the spec and judged by Mon_Server using Semaphore::available_permits after every step. A policy whose MPC task "
+             "has delivered its result or an MPC error has ended: once nothing can move it must have stopped with the permit back "
+             "(C17TaskEndEnds). One scenario mixes cancel, RPC failure and a stray command and is checked against every server "
+             "invariant.",
         note=SERVER_NOTE, technique=SERVER_TECH),
 })
 
@@ -165,7 +172,10 @@ CHECKS.update({
              "consistently, once or persistently; Mon_Adv requires Err at every honest recipient. (b) commit-before-reveal is an "
              "invariant of MC_Sched over all interleavings and is monitored (Mon_C04b) on the operation traces of real runs under "
              "adversarial schedulers. (c) challenge-after-data is examined by Mon_C04c on probe values against a predictor fed "
-             "with the coin-toss openings seen on the wire.",
+             "with the coin-toss openings seen on the wire. Two exhaustive models back (a): Wrk17Pre.tla (leaky AND, bucket "
+             "combination, Beaver as GF(2) algebra over all share bits: CheatDetected, PassImpliesCorrect, KeySecrecy, negative "
+             "controls) and Broadcast.tla (echo broadcast over FIFO channels, all interleavings, liveness); the error each model "
+             "predicts for a deviation is compared with what the replay of that deviation returned on the real code.",
         note=ADV_NOTE, technique=ADV_TECH + "; TLC invariant NoEarlyReveal + trace monitors Mon_C04b / Mon_C04c"),
     "C08": dict(
         category="fault_enumeration", design_ref="DESIGN.md 4 C08",
@@ -186,9 +196,11 @@ CHECKS.update({
              "preprocessing (coin tossing, aShare incl. its sacrifice check, LaAND, bucketing, Beaver) and the real trusted dealer "
              "are run through verification wrappers for n=2..5 and batch lengths around every boundary (1, 2, 7..9, 127..129, "
              "999..1001, 3099/3100 thorough, bucket sizes 5 and 4), each party's shares, keys, MACs and global key are exported as "
-             "16-bit limbs and TLC evaluates the relations for every ordered pair and every (sampled for long batches) index.",
+             "16-bit limbs and TLC evaluates the relations for every ordered pair and every (sampled for long batches) index. "
+             "Wrk17Pre.tla re-derives the leaky-AND / bucket / Beaver algebra symbolically and TLC checks HonestCorrect and "
+             "PassImpliesCorrect over all share bits (n = 2, 3).",
         note="Values exported by the wrappers are those handed to the online phase. Bucket size 3 (>= 280000 triples per batch) "
-             "is out of reach. This check evaluates relations on recorded outputs; it explores no state space of its own.",
+             "is out of reach. The relation part evaluates recorded outputs; the state space explored is that of Wrk17Pre.",
         technique="TLA+ relation operators evaluated by TLC on outputs recorded from the real preprocessing (trace checking)"),
     "C11": dict(
         category="model_checking", design_ref="DESIGN.md 4 C11",
